@@ -751,14 +751,22 @@ impl Mt {
                 let p = s.pkts[i].clone();
                 let c = coin_of(&p["coin"]);
                 let success = kind == "ack" && ev["success"].as_bool().unwrap_or(false);
+                // as in MW/Chain/World.lean (`setPktState`): every packet carrying that sequence number gets the state
+                let mark = |s: &mut Side, st: &str| {
+                    for q in s.pkts.iter_mut() {
+                        if q["seq"].as_u64() == Some(seq) {
+                            q["state"] = json!(st);
+                        }
+                    }
+                };
                 if success {
-                    s.pkts[i]["state"] = json!("delivered");
+                    mark(&mut s, "delivered");
                     let key = format!("{}|{}", p["receiver"].as_str().unwrap_or(""), c.denom);
                     let cur = amt(&s.remote, &key);
                     s.remote.insert(key, (cur + c.amount.u128()).to_string());
                     save_side(&mut self.storage, &s);
                 } else {
-                    s.pkts[i]["state"] = json!("refunded");
+                    mark(&mut s, "refunded");
                     save_side(&mut self.storage, &s);
                     let _ = self.router.bank.execute(
                         &LaxApi,
@@ -812,6 +820,13 @@ impl Mt {
                     self.storage = snap;
                 }
                 done(r.is_ok(), vec![])
+            }
+            "reseq" => {
+                // packets are numbered per channel: the next sequence the chain assigns is set by the environment
+                let mut s = load_side(&self.storage);
+                s.next_seq = ev["next"].as_u64().unwrap_or(1);
+                save_side(&mut self.storage, &s);
+                done(true, vec![])
             }
             "faucet" => {
                 let c = coin_of(&ev["coin"]);
